@@ -76,9 +76,15 @@ def restore_paths(ctx, cls):
     for s in fn.body:
         if isinstance(s, ast.Expr) and isinstance(s.value, ast.Constant):
             continue
+        if isinstance(s, ast.Expr) and isinstance(s.value, ast.Call) and ast.unparse(s.value.func).startswith("logger."):
+            continue
         if isinstance(s, ast.Assign) and len(s.targets) == 1 and is_self_attr(s.targets[0]):
             path = []
             v = s.value
+            # value-transparent wrappers: jnp.asarray(x), np.array(x), int(x), float(x)
+            while isinstance(v, ast.Call) and len(v.args) == 1 and not v.keywords and ast.unparse(v.func) in (
+                    "jnp.asarray", "jnp.array", "np.asarray", "np.array", "int", "float"):
+                v = v.args[0]
             while isinstance(v, ast.Attribute):
                 path.append(v.attr)
                 v = v.value
